@@ -205,6 +205,12 @@ def run(rep: common.Report, tier: str, seed: int, replay=None) -> int:
             d = meshes.make_device(rng, holes=di % 3, terminals=[0, 2, 3, 4][di % 4], max_edge_length=1.5,
                                    probe_points=(di % 2 == 0), shape=["box", "ellipse", "union"][di % 3], **lay)
             d.layer.z0 = [0.0, 0.3, -0.2][di % 3]
+            if di % 4 == 1:
+                # names are free-form strings: spaces, unicode, dots
+                d.name = "my device é.v2"
+                for k_, h_ in enumerate(d.holes):
+                    h_.name = f"hole #{k_} (inner)"
+                d.film.name = "film é"
             for with_mesh in (True, False):
                 p = os.path.join(td, f"d{di}{int(with_mesh)}.h5")
                 try:
